@@ -154,7 +154,13 @@ def run(shard, ctx):
 
     node = devnode.new_node()
     missing = os.path.join(devnode.base(), "does-not-exist")
-    strings = [node, missing, "/dev", "/devx/sg0", "dev/sg0", " /dev/sg0", "/DEV/sg0", "iscsi://192.0.2.7:3260/iqn.2003-01.org.example:t/0",
+    # node names as they occur under /dev (generic, disk, tape, optical, nvme, by-id links in a sub-directory)
+    os.makedirs(os.path.join(devnode.base(), "disk", "by-id"), exist_ok=True)
+    more_nodes = [devnode.new_node(n) for n in ("sg12", "sda", "sdb1", "st0", "nst0", "sr0", "sr1", "scd0", "cdrom", "cdrw", "dvd", "nvme0n1", "bsg-0:0:0:0")]
+    more_nodes.append(devnode.new_node(os.path.join("disk", "by-id", "wwn-0x5000c500a1b2c3d4"), link=True))
+    strings = [node, missing] + more_nodes + [
+               "iscsi://user%secret@192.0.2.7:3260/iqn.2003-01.org.example:t/1", "iscsi://user@192.0.2.7/iqn.2003-01.org.example:t/2",
+               "iscsi://[2001:db8::7]:3260/iqn.2003-01.org.example:t/0", "iscsi://chap%pass%word@h:1/iqn.x:y/255", "/dev", "/devx/sg0", "dev/sg0", " /dev/sg0", "/DEV/sg0", "iscsi://192.0.2.7:3260/iqn.2003-01.org.example:t/0",
                "iscsi://h/iqn/0", "ISCSI://h/iqn/0", "iscsi:/h/iqn/0", "iscsi//h", "", "file:///dev/sg0", "sg0", "\\\\.\\PhysicalDrive0"]
     for _ in range(shard["n"]):
         strings.append("".join(rng.choice("abc/:de.v-_ 0") for _ in range(rng.randint(1, 14))))
@@ -212,6 +218,23 @@ def run(shard, ctx):
                             other = [a for a in audit if a[0] == "open" and a[1] != dev and str(a[1]).startswith("/dev/")]
                             if other:
                                 ctx.fail("C19:%s.opened_other_path" % cfg, "opened %r" % other, wit)
+                            # the descriptor the binding will get really has the requested access mode
+                            import fcntl
+
+                            from pyscsi.pyscsi.scsi_cdb_testunitready import TestUnitReady
+
+                            sgm = sys.modules["sgio"]
+                            sgm.log = []
+                            try:
+                                obj.execute(TestUnitReady(E.spc.TEST_UNIT_READY))
+                                fl = fcntl.fcntl(sgm.log[0]["file"].fileno(), fcntl.F_GETFL) & os.O_ACCMODE
+                                if fl != mode:
+                                    ctx.fail("C19:%s.handle_access_mode" % cfg, "read_write=%s but the handle given to the binding has access mode %d" % (rw, fl), wit)
+                                if os.fstat(sgm.log[0]["file"].fileno()).st_ino != os.stat(dev).st_ino:
+                                    ctx.fail("C19:%s.handle_not_on_requested_path" % cfg, "the handle given to the binding is not the node at the requested path", wit)
+                                ctx.count("binding_handles_inspected")
+                            except Exception as e:  # noqa: BLE001
+                                ctx.fail("C19:%s.first_command_fails" % cfg, "first command on the new device raised %s" % e, wit, exc=e)
                             obj.close()
                     elif want_is:
                         if exc is not None or type(obj).__name__ != "ISCSIDevice":
